@@ -15,6 +15,7 @@ search:  kernels.sweep_kernel: exact sweep kernel assembled from real calls on 3
 import json
 
 import kernels
+import realsearch
 import scripted_steps
 from props import _plumb
 
@@ -30,7 +31,10 @@ def run(chk, tier, proof_ok):
     broken = (not proof_ok) or bool(divs or errs or sdivs or serrs)
     full = (not quick) or broken
     f, st = kernels.sweep_kernel(chk.seed, tier, full)
+    f2, st2 = realsearch.caller_ladder_findings(chk.seed, 6 if quick else 40)
+    f = f + f2
     cov = chk.coverage
+    cov['caller_ladder'] = st2
     cov.setdefault('correspondence', {})['scripted-sweep'] = dict(
         sstats, divergences=len(sdivs), real_code_exceptions=len(serrs))
     cov['search'] = {
